@@ -31,14 +31,14 @@ Proof.
   unfold paren_delta. rewrite Hl, Hr.
   unfold is_lparen, is_rparen, T_Punctuation, T_Keyword in *.
   unfold w_DECLARE, w_BEGIN, w_END_IF, w_END_FOR, w_END_WHILE, w_END in *.
-  unfold change_splitlevel. rewrite Hl, Hr, Hk. cbn [negb existsb].
+  unfold change_splitlevel. rewrite Hl, Hr, Hk. cbn [negb existsb]. cbv zeta. fold (unified (snd tk)).
   repeat match goal with
-         | H : text_eqb (upper (snd tk)) ?w = false |- _ => rewrite H; clear H
+         | H : text_eqb (unified (snd tk)) ?w = false |- _ => rewrite H; clear H
          end.
   cbn [orb andb]. rewrite ?andb_false_r.
   assert (Hz : Z.gtb (begin_depth st) 0 = false) by (rewrite Hb; reflexivity).
   rewrite Hz, ?andb_false_r. unfold I0.
-  destruct (ttype_eqb (fst tk) [Keyword; DDL] && text_prefixb [67; 82; 69; 65; 84; 69]%N (upper (snd tk)));
+  destruct (ttype_eqb (fst tk) [Keyword; DDL] && text_prefixb [67; 82; 69; 65; 84; 69]%N (unified (snd tk)));
     (eexists; split; [reflexivity|]; cbn; auto).
 Qed.
 
@@ -53,7 +53,7 @@ Proof.
   { apply andb_true_iff in H. destruct H as [H _]. apply ddl_is_kw, H. }
   destruct (kw_not_paren _ Hk) as [Hl Hr].
   unfold is_lparen, is_rparen, T_Punctuation, T_Keyword in *.
-  unfold change_splitlevel. rewrite Hl, Hr, Hk. cbn [negb]. rewrite H. reflexivity.
+  unfold change_splitlevel. rewrite Hl, Hr, Hk. cbn [negb]. cbv zeta. fold (unified (snd tk)). rewrite H. reflexivity.
 Qed.
 
 (* semicolons allowed, but only at nesting depth >= 1 *)
